@@ -238,4 +238,112 @@ Section Step.
           rewrite TE_empty by assumption. lia.
         * rewrite N6. f_equal. unfold hN. rewrite (ID (fun _ => true)). rewrite TE_empty by assumption. lia.
   Qed.
+  (* ---------------------------------------------------------------- the row step of one piece:
+     update_histogram removes the (-) pixel and adds the (+) pixel in field k of slot o *)
+
+  Lemma bump_bins (delta v : Z) (p : piece) (hc hf : Z -> Z) : 0 <= v < 256 ->
+    BinsAre 16 (coarse p) hc -> BinsAre 256 (fine p) hf ->
+    BinsAre 16 (coarse (bump delta v p)) (fun i => hc i + (if v / 16 =? i then delta else 0)) /\
+    BinsAre 256 (fine (bump delta v p)) (fun w => hf w + (if v =? w then delta else 0)).
+  Proof.
+    intros Hv [Lc Hc] [Lf Hf]. unfold bump. cbn [coarse fine]. split; (split; [rewrite updz_length; assumption|]).
+    - intros i Hi. rewrite getz_updz by lia. destruct (i =? v / 16) eqn:E.
+      + assert (i = v / 16) by lia. subst i. rewrite Hc by lia. rewrite Z.eqb_refl. unfold M16. lia.
+      + rewrite Hc by lia. destruct (v / 16 =? i) eqn:E'; [lia|]. f_equal; lia.
+    - intros w Hw. rewrite getz_updz by lia. destruct (w =? v) eqn:E.
+      + assert (w = v) by lia. subst w. rewrite Hf by lia. rewrite Z.eqb_refl. unfold M16. lia.
+      + rewrite Hf by lia. destruct (v =? w) eqn:E'; [lia|]. f_equal; lia.
+  Qed.
+
+  Lemma get_set_same k p n cl : get_p k (set_pn k p n cl) = p /\ get_n k (set_pn k p n cl) = n.
+  Proof. destruct k; split; reflexivity. Qed.
+  Lemma get_set_other k k' p n cl : k' <> k -> get_p k' (set_pn k p n cl) = get_p k' cl /\ get_n k' (set_pn k p n cl) = get_n k' cl.
+  Proof. intros H. destruct k, k'; try congruence; split; reflexivity. Qed.
+
+  (* one signed update of a slot field by a pixel of value v *)
+  Lemma upd_piece_spec (delta v : Z) (k : pname) (cl : column) (hc hf : Z -> Z) (n : Z) : 0 <= v < 256 ->
+    BinsAre 16 (coarse (get_p k cl)) hc -> BinsAre 256 (fine (get_p k cl)) hf -> get_n k cl = n mod M16 ->
+    let cl' := upd_piece delta v k cl in
+    BinsAre 16 (coarse (get_p k cl')) (fun i => hc i + (if v / 16 =? i then delta else 0)) /\
+    BinsAre 256 (fine (get_p k cl')) (fun w => hf w + (if v =? w then delta else 0)) /\
+    get_n k cl' = (n + delta) mod M16 /\
+    (forall k', k' <> k -> get_p k' cl' = get_p k' cl /\ get_n k' cl' = get_n k' cl).
+  Proof.
+    intros Hv Hc Hf Hn. cbv zeta. unfold upd_piece. destruct (get_set_same k (bump delta v (get_p k cl)) ((get_n k cl + delta) mod M16) cl) as [E1 E2].
+    rewrite E1, E2. destruct (bump_bins delta v (get_p k cl) hc hf Hv Hc Hf) as [B1 B2].
+    split; [exact B1|]. split; [exact B2|]. split; [rewrite Hn; unfold M16; lia|].
+    intros k' Hk. apply get_set_other. exact Hk.
+  Qed.
+
+  Hypothesis HD : Data8.
+
+  Theorem upd_hist_spec (s : st) (o : Z) (k : pname) (S S' : Z -> Z -> bool) (lc nc : Z * Z) :
+    0 <= o -> (Z.to_nat o < length (s_cols s))%nat ->
+    SlotIs (slot s o) k S ->
+    (forall q, cnt e S' q = cnt e S q - pixv e lc (s_col s) (s_row s) q + pixv e nc (s_col s) (s_row s) q) ->
+    let s' := upd_hist e s o k lc nc in
+    SlotIs (slot s' o) k S' /\
+    (forall o' k', 0 <= o' -> (o' <> o \/ k' <> k) ->
+       get_p k' (slot s' o') = get_p k' (slot s o') /\ get_n k' (slot s' o') = get_n k' (slot s o')) /\
+    length (s_cols s') = length (s_cols s) /\ s_acc s' = s_acc s /\ s_accn s' = s_accn s /\
+    s_last s' = s_last s /\ s_row s' = s_row s /\ s_col s' = s_col s.
+  Proof.
+    intros Ho Hlen (HC & HF & HN) HS'. cbv zeta. unfold upd_hist.
+    set (x1 := fst lc + s_col s). set (y1 := snd lc + s_row s).
+    (* the (-) pixel *)
+    set (s1 := if in_img e x1 y1 then set_cols s (updz (s_cols s) o (upd_piece (-1) (dat e y1 x1) k)) else s).
+    assert (P1 : BinsAre 16 (coarse (get_p k (slot s1 o))) (fun i => hC S i - pixv e lc (s_col s) (s_row s) (fun d => d / 16 =? i)) /\
+                 BinsAre 256 (fine (get_p k (slot s1 o))) (fun w => hF S w - pixv e lc (s_col s) (s_row s) (Z.eqb w)) /\
+                 get_n k (slot s1 o) = (hN S - pixv e lc (s_col s) (s_row s) (fun _ => true)) mod M16 /\
+                 (forall o' k', 0 <= o' -> (o' <> o \/ k' <> k) ->
+                    get_p k' (slot s1 o') = get_p k' (slot s o') /\ get_n k' (slot s1 o') = get_n k' (slot s o')) /\
+                 length (s_cols s1) = length (s_cols s) /\ s_acc s1 = s_acc s /\ s_accn s1 = s_accn s /\
+                 s_last s1 = s_last s /\ s_row s1 = s_row s /\ s_col s1 = s_col s).
+    { unfold pixv. replace (s_col s + fst lc) with x1 by (unfold x1; lia). replace (s_row s + snd lc) with y1 by (unfold y1; lia).
+      unfold s1. destruct (in_img e x1 y1) eqn:V; cbn [andb].
+      - pose proof (HD x1 y1 V) as Hv.
+        destruct (upd_piece_spec (-1) (dat e y1 x1) k (slot s o) _ _ _ Hv HC HF HN) as (B1 & B2 & B3 & B4).
+        unfold slot at 1 2 3. cbn [set_cols s_cols s_acc s_accn s_last s_row s_col]. rewrite !getz_updz by lia. rewrite Z.eqb_refl.
+        fold (slot s o). split; [eapply BinsAre_ext; [|exact B1]; intros i Hi; cbv beta; destruct (dat e y1 x1 / 16 =? i); lia|].
+        split; [eapply BinsAre_ext; [|exact B2]; intros w Hw; cbv beta; rewrite (Z.eqb_sym w); destruct (dat e y1 x1 =? w); lia|].
+        split; [rewrite B3; f_equal; lia|]. split.
+        + intros o' k' Ho' Hne. unfold slot. cbn [set_cols s_cols]. rewrite getz_updz by lia.
+          destruct (o' =? o) eqn:Eo; [|split; reflexivity]. assert (o' = o) by lia. subst o'.
+          destruct Hne as [Hne|Hne]; [congruence|]. fold (slot s o). apply B4. exact Hne.
+        + rewrite updz_length. repeat split; reflexivity.
+      - split; [eapply BinsAre_ext; [|exact HC]; intros; cbv beta; lia|].
+        split; [eapply BinsAre_ext; [|exact HF]; intros; cbv beta; lia|].
+        split; [rewrite HN; f_equal; lia|]. split; [intros; split; reflexivity|]. repeat split; reflexivity. }
+    destruct P1 as (C1 & F1 & N1 & Fr1 & L1 & A1 & AN1 & La1 & R1 & K1).
+    fold s1. rewrite R1, K1.
+    set (x2 := fst nc + s_col s). set (y2 := snd nc + s_row s).
+    assert (Hlen1 : (Z.to_nat o < length (s_cols s1))%nat) by lia.
+    unfold SlotIs.
+    assert (QC : forall i, hC S' i = hC S i - pixv e lc (s_col s) (s_row s) (fun d => d / 16 =? i)
+                                     + pixv e nc (s_col s) (s_row s) (fun d => d / 16 =? i)) by (intros; apply HS').
+    assert (QF : forall w, hF S' w = hF S w - pixv e lc (s_col s) (s_row s) (Z.eqb w) + pixv e nc (s_col s) (s_row s) (Z.eqb w))
+      by (intros; apply HS').
+    assert (QN : hN S' = hN S - pixv e lc (s_col s) (s_row s) (fun _ => true) + pixv e nc (s_col s) (s_row s) (fun _ => true))
+      by (apply HS').
+    unfold pixv at 2 in QC. unfold pixv at 2 in QF. unfold pixv at 2 in QN.
+    replace (s_col s + fst nc) with x2 in * by (unfold x2; lia). replace (s_row s + snd nc) with y2 in * by (unfold y2; lia).
+    destruct (in_img e x2 y2) eqn:V; cbn [andb] in *.
+    - pose proof (HD x2 y2 V) as Hv.
+      destruct (upd_piece_spec 1 (dat e y2 x2) k (slot s1 o) _ _ _ Hv C1 F1 N1) as (B1 & B2 & B3 & B4).
+      unfold slot at 1 2 3. cbn [set_cols s_cols s_acc s_accn s_last s_row s_col]. rewrite !getz_updz by lia. rewrite Z.eqb_refl.
+      fold (slot s1 o).
+      split; [split; [eapply BinsAre_ext; [|exact B1]; intros i Hi; cbv beta; rewrite QC; destruct (dat e y2 x2 / 16 =? i); lia|]|].
+      + split; [eapply BinsAre_ext; [|exact B2]; intros w Hw; cbv beta; rewrite QF; rewrite (Z.eqb_sym w); destruct (dat e y2 x2 =? w); lia|].
+        rewrite B3, QN. f_equal; lia.
+      + split.
+        * intros o' k' Ho' Hne. unfold slot. cbn [set_cols s_cols]. rewrite getz_updz by lia.
+          destruct (o' =? o) eqn:Eo.
+          -- assert (o' = o) by lia. subst o'. destruct Hne as [Hne|Hne]; [congruence|]. fold (slot s1 o).
+             destruct (B4 k' Hne) as [E1 E2]. rewrite E1, E2. apply Fr1; [lia|right; exact Hne].
+          -- apply Fr1; assumption.
+        * rewrite updz_length. repeat split; congruence.
+    - split; [split; [eapply BinsAre_ext; [|exact C1]; intros i Hi; cbv beta; rewrite QC; lia|]|].
+      + split; [eapply BinsAre_ext; [|exact F1]; intros w Hw; cbv beta; rewrite QF; lia|]. rewrite N1, QN. f_equal; lia.
+      + split; [exact Fr1|]. repeat split; congruence.
+  Qed.
 End Step.
